@@ -1,7 +1,8 @@
 (* C14 — Output does not depend on MCNP-insignificant formatting of the deck.
    Only restatements; proofs are in C14/Proofs*.v. *)
 From Coq Require Import List NArith Bool String Ascii.
-From T4V Require Import Base.Str C14.Model C14.ProofsContent C14.ProofsCards.
+From T4V Require Import Base.Str C14.Model C14.ProofsContent C14.ProofsCards C14.ProofsCase
+  C14.ProofsSplit.
 Import ListNotations.
 Open Scope string_scope.
 
@@ -80,3 +81,81 @@ Proof.
     all: try (left; reflexivity); try (right; reflexivity).
   - repeat constructor.
 Qed.
+
+(* ---- letter case ---- *)
+
+(* option tokenisation of a cell card (re.sub(' *: *', ':'), lower(), the
+   replacement of ( ) = by blanks, split()): spellings that differ only in
+   letter case give the same keyword list *)
+Theorem C14_case_invariant_options : forall s s' : string,
+  lower s = lower s' -> opt_tokens s = opt_tokens s'.
+Proof. exact opt_tokens_case. Qed.
+Print Assumptions C14_case_invariant_options.
+
+(* the surface and data splits cut a card at the same places whatever the
+   case of its letters (their consumers lower-case the pieces) *)
+Theorem C14_case_invariant_splits : forall s : string,
+  surf_split (lower s) = map_res lower4 (surf_split s) /\
+  data_split (lower s) = map_res lower4 (data_split s).
+Proof. intros s. split; [apply surf_split_lower|apply data_split_lower]. Qed.
+Print Assumptions C14_case_invariant_splits.
+
+Example C14_case_invariant_nonvacuous :
+  lower "IMP:N = 1 *FILL=3 ( 1 0 0 )" = lower "imp:n = 1 *fill=3 ( 1 0 0 )" /\
+  opt_tokens "IMP:N = 1 *FILL=3 ( 1 0 0 )" = ["imp:n"; "1"; "*fill"; "3"; "1"; "0"; "0"] /\
+  surf_split "*7 3 C/z 1 2 3" = Ok ("*7", "3 ", "C/z", "1 2 3").
+Proof. repeat split; reflexivity. Qed.
+
+(* ---- the splits on the content of laid-out cards ---- *)
+
+(* surface card: optional blanks, [+*]* number, blanks, mnemonic, blanks, rest *)
+Theorem C14_split_surface : forall w0 bc ds w1 mn w3 rest : string,
+  all_chars is_ws w0 = true -> all_chars is_bc bc = true ->
+  all_chars is_digit ds = true -> ds <> "" ->
+  all_chars is_ws w1 = true -> w1 <> "" ->
+  all_chars is_mnemo mn = true -> mn <> "" ->
+  all_chars is_ws w3 = true -> w3 <> "" -> head_fails is_ws rest ->
+  surf_split (w0 ++ bc ++ ds ++ w1 ++ mn ++ w3 ++ rest) = Ok (bc ++ ds, "", mn, rest).
+Proof. exact surf_split_plain. Qed.
+Print Assumptions C14_split_surface.
+
+(* the same with a transformation number between the name and the mnemonic *)
+Theorem C14_split_surface_tr : forall w0 bc ds w1 sg d2 w2 mn w3 rest : string,
+  all_chars is_ws w0 = true -> all_chars is_bc bc = true ->
+  all_chars is_digit ds = true -> ds <> "" ->
+  all_chars is_ws w1 = true -> w1 <> "" ->
+  all_chars is_sign sg = true -> all_chars is_digit d2 = true -> d2 <> "" ->
+  all_chars is_ws w2 = true ->
+  all_chars is_mnemo mn = true -> mn <> "" ->
+  all_chars is_ws w3 = true -> w3 <> "" -> head_fails is_ws rest ->
+  surf_split (w0 ++ bc ++ ds ++ w1 ++ sg ++ d2 ++ w2 ++ mn ++ w3 ++ rest)
+  = Ok (bc ++ ds, sg ++ d2 ++ w2, mn, rest).
+Proof. exact surf_split_tr. Qed.
+Print Assumptions C14_split_surface_tr.
+
+(* on the content computed by Card.content for a laid-out surface card
+   (C14_cards_layout: pad, tokens joined by single blanks, pad) *)
+Theorem C14_split_surface_rendered : forall (bl br : bool) (bc ds mn p : string) (ps : list string),
+  all_chars is_bc bc = true -> all_chars is_digit ds = true -> ds <> "" ->
+  all_chars is_mnemo mn = true -> mn <> "" -> is_token p ->
+  surf_split (pad bl ++ join " " ((bc ++ ds) :: mn :: p :: ps) ++ pad br)
+  = Ok (bc ++ ds, "", mn, join " " (p :: ps) ++ pad br).
+Proof. exact surf_split_rendered. Qed.
+Print Assumptions C14_split_surface_rendered.
+
+(* numbered data card (M7, TR3, *TR3, ...) on the content of a laid-out card *)
+Theorem C14_split_data_rendered : forall (bl br : bool) (st ty ds : string) (ps : list string),
+  all_chars (ceq "*") st = true ->
+  all_chars nondigit ty = true -> (exists c ty', ty = String c ty' /\ is_letter c = true) ->
+  all_chars is_digit ds = true -> ds <> "" ->
+  data_split (pad bl ++ join " " ((st ++ ty ++ ds) :: ps) ++ pad br)
+  = Ok (st ++ ty, ds, "", match ps with [] => "" | _ => " " ++ join " " ps end ++ pad br).
+Proof. exact data_split_rendered. Qed.
+Print Assumptions C14_split_data_rendered.
+
+Example C14_split_nonvacuous :
+  surf_split (pad true ++ join " " (("*" ++ "12") :: "c/z" :: "1.5" :: ["0"; "2"]) ++ pad true)
+  = Ok ("*12", "", "c/z", "1.5 0 2 ") /\
+  data_split (pad false ++ join " " (("*" ++ "tr" ++ "7") :: ["1"; "2"; "3"]) ++ pad false)
+  = Ok ("*tr", "7", "", " 1 2 3").
+Proof. split; reflexivity. Qed.
